@@ -22,6 +22,12 @@
                                    new top level that still references the cached nested objects
                                    (DeepCopy = FALSE, the code as it is); DeepCopy = TRUE models
                                    `postprocess_deepcopy_mutables` (the proposed repair).
+     GetAll(t)        the bulk / relational readers that return rows of table t by another path
+                      (get_workflow_steps, get_workflow_ports, get_port_from_token, get_workflows_by_name,
+                      get_executions_by_step, get_port_tokens ...): SELECT + json.loads -> fresh objects, the
+                      caches are not consulted and not filled (BulkFills = {}, the code as it is).  A reader that
+                      "warms" the cache with the rows it returns (t \in BulkFills) stores the very objects it hands
+                      to the caller: those returned rows ARE the cache entries (alias), top level included.
      MutTop(k)        the caller assigns row["status"] = ... on the k-th row it still holds
      MutNested(k)     the caller assigns row["params"][...] = ... on that row
 
@@ -34,6 +40,8 @@ CONSTANTS Tables,      \* table names
           Cached,      \* tables whose getter is decorated with @cached
           Updatable,   \* tables that have an update_<t> method
           Pops,        \* Pops[t], t \in Updatable: the table whose cache update_<t> pops ("none": no pop)
+          Bulk,        \* tables that have bulk / relational readers besides get_<t>
+          BulkFills,   \* tables whose bulk reader stores the returned rows in the cache (none in the code as it is)
           MaxId,       \* at most MaxId rows per table
           MaxRets,     \* the caller keeps the MaxRets most recent rows it was given
           MaxDepth,    \* histories of at most MaxDepth calls
@@ -42,7 +50,8 @@ CONSTANTS Tables,      \* table names
 VARIABLES rows,    \* rows[t]  : sequence (index = id) of [top, nested]        -- what SELECT returns
           heap,    \* heap[c]  : the nested python object behind reference c
           cache,   \* cache[t] : function  id -> [top, cell]  (domain = cached ids)
-          rets,    \* rows in the hands of the caller: sequence of [t, id, top, cell]
+          rets,    \* rows in the hands of the caller: sequence of [t, id, top, cell, alias]
+                   \*   alias: the row object itself is the cache entry of (t, id)
           ver,     \* next fresh value
           depth,   \* number of calls so far
           obs      \* the last call and what it returned (history variable)
@@ -60,6 +69,10 @@ Restrict(f, S) == [x \in S |-> f[x]]
 Live(c, r) == {c[t][i].cell : <<t, i>> \in {p \in Tables \X (1..MaxId) : p[2] \in DOMAIN c[p[1]]}}
               \cup {r[k].cell : k \in 1..Len(r)}
 Push(r, x) == LET s == Append(r, x) IN IF Len(s) > MaxRets THEN Tail(s) ELSE s
+RECURSIVE PushAll(_, _)
+PushAll(r, xs) == IF xs = <<>> THEN r ELSE PushAll(Push(r, Head(xs)), Tail(xs))
+\* the cache entry of (t, i) is dropped or replaced: rows that were that entry are ordinary objects from now on
+Unalias(r, t, S) == [k \in 1..Len(r) |-> IF r[k].t = t /\ r[k].id \in S THEN [r[k] EXCEPT !.alias = FALSE] ELSE r[k]]
 
 \* every action ends here: unreachable objects are garbage (keeps the state canonical)
 Commit(rows2, heap2, cache2, rets2, ver2, obs2) ==
@@ -91,7 +104,8 @@ Update(t, i, f) ==
          cache2 == IF p \in Tables
                    THEN [cache EXCEPT ![p] = Restrict(@, (DOMAIN @) \ {i})]
                    ELSE cache
-     IN Commit([rows EXCEPT ![t][i][f] = ver], heap, cache2, rets, ver + 1,
+         rets2  == IF p \in Tables THEN Unalias(rets, p, {i}) ELSE rets
+     IN Commit([rows EXCEPT ![t][i][f] = ver], heap, cache2, rets2, ver + 1,
                [kind |-> "update", t |-> t, id |-> i, f |-> f])
 
 Get(t, i) ==
@@ -108,12 +122,32 @@ Get(t, i) ==
          deep == t \in Cached /\ DeepCopy
          c2   == IF deep THEN NewCell(h1) ELSE c1
          h2   == IF deep THEN (c2 :> h1[c1]) @@ h1 ELSE h1
-     IN Commit(rows, h2, cache2, Push(rets, [t |-> t, id |-> i, top |-> top1, cell |-> c2]), ver,
+     IN Commit(rows, h2, cache2, Push(rets, [t |-> t, id |-> i, top |-> top1, cell |-> c2, alias |-> FALSE]), ver,
                [kind |-> "get", t |-> t, id |-> i, top |-> top1, nested |-> h2[c2]])
+
+\* rows i..n of table t read afresh: [h |-> heap, out |-> the returned rows]
+RECURSIVE BulkRead(_, _, _, _)
+BulkRead(t, i, h, out) ==
+  IF i > Len(rows[t]) THEN [h |-> h, out |-> out]
+  ELSE LET c == NewCell(h)
+       IN BulkRead(t, i + 1, (c :> rows[t][i].nested) @@ h,
+                   Append(out, [t |-> t, id |-> i, top |-> rows[t][i].top, cell |-> c, alias |-> t \in BulkFills]))
+
+GetAll(t) ==
+  /\ t \in Bulk /\ Len(rows[t]) > 0
+  /\ LET b == BulkRead(t, 1, heap, <<>>)
+         fills  == t \in BulkFills
+         cache2 == IF fills THEN [cache EXCEPT ![t] = [i \in Ids(t) |-> [top |-> rows[t][i].top, cell |-> b.out[i].cell]]]
+                   ELSE cache
+         rets1  == IF fills THEN Unalias(rets, t, Ids(t)) ELSE rets
+     IN Commit(rows, b.h, cache2, PushAll(rets1, b.out), ver,
+               [kind |-> "getall", t |-> t, ret |-> [i \in Ids(t) |-> [top |-> b.out[i].top, nested |-> b.h[b.out[i].cell]]]])
 
 MutTop(k) ==
   /\ k \in 1..Len(rets) /\ rets[k].top # Caller
-  /\ Commit(rows, heap, cache, [rets EXCEPT ![k].top = Caller], ver, [kind |-> "mut_top", k |-> k])
+  /\ LET r == rets[k]
+         cache2 == IF r.alias /\ r.id \in DOMAIN cache[r.t] THEN [cache EXCEPT ![r.t][r.id].top = Caller] ELSE cache
+     IN Commit(rows, heap, cache2, [rets EXCEPT ![k].top = Caller], ver, [kind |-> "mut_top", k |-> k])
 
 MutNested(k) ==
   /\ k \in 1..Len(rets) /\ heap[rets[k].cell] # Caller
@@ -122,6 +156,7 @@ MutNested(k) ==
 Next == \/ \E t \in Tables : Add(t)
         \/ \E t \in Tables, i \in 1..MaxId, f \in Fields : Update(t, i, f)
         \/ \E t \in Tables, i \in 1..MaxId : Get(t, i)
+        \/ \E t \in Tables : GetAll(t)
         \/ \E k \in 1..MaxRets : MutTop(k)
         \/ \E k \in 1..MaxRets : MutNested(k)
 Spec == Init /\ [][Next]_vars
@@ -134,8 +169,9 @@ TypeOK == /\ \A t \in Tables : Len(rows[t]) <= MaxId /\ DOMAIN cache[t] \subsete
           /\ Len(rets) <= MaxRets
 
 \* every read returns exactly what an uncached database would return at that point
-GetReturnsDbRow == obs.kind = "get" => /\ obs.top = rows[obs.t][obs.id].top
-                                       /\ obs.nested = rows[obs.t][obs.id].nested
+GetReturnsDbRow == /\ obs.kind = "get" => /\ obs.top = rows[obs.t][obs.id].top
+                                          /\ obs.nested = rows[obs.t][obs.id].nested
+                   /\ obs.kind = "getall" => obs.ret = rows[obs.t]
 
 \* ... now and for any later read: whatever the cache holds is the database row
 CacheCoherent == \A t \in Cached : \A i \in DOMAIN cache[t] :
